@@ -129,6 +129,42 @@ theorem list_order_independent (g g' : AG) (hv : validB g = true) (hv' : validB 
   rw [e1] at a1; rw [e2] at b1
   exact ⟨gfp_unique _ _ _ a1.1 a2.1 a1.2 a2.2, gfp_unique _ _ _ b1.1 b2.1 b1.2 b2.2⟩
 
+/-! ### analysing a graph again (after a complete or an aborted earlier run) -/
+
+/-- **Re-running the analysis.**  Whatever prefix `pre` of the nodes an earlier run of
+`calculate_viability_and_necessity` got through before it stopped (e.g. on the `AssertionError` of an invalid
+defense status, repaired afterwards), running the analysis again on the labels it left behind gives the labels of
+a run on the freshly generated graph — in particular a second complete run changes nothing. -/
+theorem rerun_is_fresh_run (g : AG) (hv : validB g = true) (pre order : List Nat) (hc : Covers g order) :
+    calcLab (viabG g) (viabConst g) (g.length + 1) order (calcLab (viabG g) (viabConst g) (g.length + 1) pre top)
+      = calcViab g order ∧
+    calcLab (necG g) (necConst g) (g.length + 1) order (calcLab (necG g) (necConst g) (g.length + 1) pre top)
+      = calcNec g order := by
+  have hcl : ∀ p c, c ∈ (viabG g).children p → c ∈ List.range g.length :=
+    fun p c h => List.mem_range.2 (valid_children g hv p c h).1
+  have hallv : ∀ x, (viabG g).kind x = Kind.constK → x ∈ order ∨ viabConst g x = true := fun x _ => by
+    by_cases hx : x < g.length
+    · exact Or.inl (hc x hx)
+    · exact Or.inr (const_out_of_range_viab g x hx)
+  have halln : ∀ x, (necG g).kind x = Kind.constK → x ∈ order ∨ necConst g x = true := fun x _ => by
+    by_cases hx : x < g.length
+    · exact Or.inl (hc x hx)
+    · exact Or.inr (const_out_of_range_nec g x hx)
+  have a := calc_gfp_from (viabG g) (conv_viab g hv) (List.range g.length) hcl (viabConst g) order _
+    (oinv_calcLab (viabG g) (conv_viab g hv) (List.range g.length) hcl (viabConst g) pre) hallv
+  have b := calc_gfp_from (necG g) (conv_nec g hv) (List.range g.length) hcl (necConst g) order _
+    (oinv_calcLab (necG g) (conv_nec g hv) (List.range g.length) hcl (necConst g) pre) halln
+  have a' := viability_is_gfp g hv order hc
+  have b' := necessity_is_gfp g hv order hc
+  simp only [List.length_range] at a b
+  exact ⟨gfp_unique _ _ _ a.1 a'.1 a.2 a'.2, gfp_unique _ _ _ b.1 b'.1 b.2 b'.2⟩
+
+/-- a second complete run is the identity on the labels -/
+theorem rerun_idempotent (g : AG) (hv : validB g = true) (order : List Nat) (hc : Covers g order) :
+    calcLab (viabG g) (viabConst g) (g.length + 1) order (calcViab g order) = calcViab g order ∧
+    calcLab (necG g) (necConst g) (g.length + 1) order (calcNec g order) = calcNec g order :=
+  rerun_is_fresh_run g hv order order hc
+
 /-! ### the clauses of the property, read off the fixed-point equation -/
 
 section clauses
